@@ -452,6 +452,10 @@ class Evaluator:
             return lambda a: tuple(reversed(a))
         if name == "SeqEq":
             return lambda a, b: tuple(map(id, a)) == tuple(map(id, b))
+        if name.startswith("LeafCnt<"):
+            key = [kk for kk, v in L._LEAFCNT.items() if v.name() == name][0]
+            children, llen = (self.heap_fn(n) for n in key)
+            return lambda s, i: sum(1 for e in s[:max(i, 0)] if children(e) is None or llen(children(e)) == 0)
         if name.startswith("Kids<"):
             key = [kk for kk, v in L._LEVEL.items() if v[0].name() == name][0]
             children, llen, litem = (self.heap_fn(n) for n in key)
